@@ -119,7 +119,8 @@ def loop_signature(F, b, head, blocks):
     for x in sorted(blocks):
         t = b.term(x)
         if t["k"] == "switch" and any(s not in blocks for s in b.succ[x]):
-            conds.add(b.oname(t["d"], 2))
+            with b.alpha():
+                conds.add(b.oname(t["d"], 2))
     return "exit[%s] calls[%s]" % ("; ".join(sorted(conds)), ",".join(sorted(names)))
 
 
@@ -160,7 +161,7 @@ def check_counter(F, b, callee_suffix, param_name):
     env = guard.Env(b)
     hits = 0
     for c in b.calls:
-        if not (c.local and (c.name.endswith(callee_suffix))):
+        if not (c.local and (c.cname.endswith(callee_suffix))):
             continue
         hits += 1
         pos = (c.bb, 10**6)
@@ -240,15 +241,16 @@ def every_cycle_passes(b, head, blocks, must):
     return True
 
 
-def counter_updates(b, blocks, var):
-    """blocks inside the loop that assign `var = var +/- k` (k >= 1 constant, checked arithmetic)."""
+def counter_updates(b, blocks, var=None):
+    """blocks inside the loop that assign `v = v +/- k` (k >= 1 constant, checked arithmetic); with var=None every such
+    place is a candidate and the result carries the place: [(bb, op, k, place)]."""
     out = []
     for bi in blocks:
         for s in b.blocks[bi]["st"]:
             if "lhs" not in s:
                 continue
             lhs = b.pname(s["lhs"], 2)
-            if not (lhs == var or lhs.endswith("." + var) or lhs.endswith("*" + var)):
+            if var is not None and not (lhs == var or lhs.endswith("." + var) or lhs.endswith("*" + var)):
                 continue
             rv = s["rv"]
             if rv["k"] != "use":
@@ -263,13 +265,30 @@ def counter_updates(b, blocks, var):
             if k is None or "int" not in k or int(k["int"]) < 1:
                 continue
             a = b.oname(d[3]["a"], 2)
-            if a == lhs or a.endswith(var):
-                out.append((bi, d[3]["op"][:3], int(k["int"])))
+            if a == lhs or (var is not None and a.endswith(var)):
+                out.append((bi, d[3]["op"][:3], int(k["int"]), lhs))
     return out
 
 
-def check_counter_loop(b, head, blocks, var):
-    ups = counter_updates(b, blocks, var)
+def counter_candidates(b, blocks):
+    """places updated by `v = v +/- k` inside the loop."""
+    seen = []
+    for u in counter_updates(b, blocks, None):
+        if u[3] not in seen:
+            seen.append(u[3])
+    return seen
+
+
+def check_counter_loop(b, head, blocks, var=None):
+    if var is None:
+        why = "no `v += k` / `v -= k` inside the loop"
+        for cand in counter_candidates(b, blocks):
+            ok, how = check_counter_loop(b, head, blocks, cand)
+            if ok:
+                return ok, how
+            why = how
+        return False, why
+    ups = [u for u in counter_updates(b, blocks, None) if u[3] == var] or counter_updates(b, blocks, var)
     if not ups:
         return False, "no `%s += k` / `%s -= k` inside the loop" % (var, var)
     if not every_cycle_passes(b, head, blocks, [u[0] for u in ups]):
@@ -284,10 +303,29 @@ def check_counter_loop(b, head, blocks, var):
     return False, "no loop exit compares %s" % var
 
 
-def check_counter_or_pop_loop(b, head, blocks, var, stack):
+def check_counter_or_pop_loop(b, head, blocks, var=None, stack=None):
+    if var is None or stack is None:
+        stacks = []
+        for c in b.calls:
+            if c.bb in blocks and re.search(r"Vec::<.*>::pop$", c.fn or c.name):
+                t = b.oname(c.args[0], 2).lstrip("&*")
+                if t not in stacks:
+                    stacks.append(t)
+        why = "no counter / stack pair found"
+        for cand in counter_candidates(b, blocks):
+            for st in stacks:
+                ok, how = check_counter_or_pop_loop(b, head, blocks, cand, st)
+                if ok:
+                    return ok, how
+                why = how
+        return False, why
+    return _check_counter_or_pop_loop(b, head, blocks, var, stack)
+
+
+def _check_counter_or_pop_loop(b, head, blocks, var, stack):
     """lexicographic witness (counter, stack length): every cycle either updates the counter or pops the stack, the
     stack grows only on paths that passed a counter update, an exit tests the counter and a failed pop leaves."""
-    ups = counter_updates(b, blocks, var)
+    ups = [u for u in counter_updates(b, blocks, None) if u[3] == var] or counter_updates(b, blocks, var)
     if not ups:
         return False, "no update of %s inside the loop" % var
     upb = [u[0] for u in ups]
@@ -318,7 +356,21 @@ def check_counter_exit(b, blocks, var):
     return False, "no loop exit compares %s" % var
 
 
-def check_visited_loop(b, head, blocks, setname):
+def check_visited_loop(b, head, blocks, setname=None):
+    if setname is None:
+        names = []
+        for c in b.calls:
+            if c.bb in blocks and re.search(r"HashSet::<.*>::insert$", c.fn or c.name):
+                t = b.oname(c.args[0], 2).lstrip("&*")
+                if t not in names:
+                    names.append(t)
+        why = "no HashSet insert inside the loop"
+        for n in names:
+            ok, how = check_visited_loop(b, head, blocks, n)
+            if ok:
+                return ok, how
+            why = how
+        return False, why
     ins = [c for c in b.calls if c.bb in blocks and re.search(r"HashSet::<.*>::insert$", c.fn or c.name) and setname in b.oname(c.args[0], 2)]
     con = [c for c in b.calls if c.bb in blocks and re.search(r"HashSet::<.*>::contains$", c.fn or c.name) and setname in b.oname(c.args[0], 2)]
     if not ins or not con:
@@ -364,11 +416,11 @@ def check_termination(ctx, F, scope, loops_table, rec_table, rule="R-TERM"):
                     continue
                 w = r["witness"]
                 if w == "counter":
-                    ok, how = check_counter_loop(b, head, blocks, r["var"])
+                    ok, how = check_counter_loop(b, head, blocks, None)
                 elif w == "visited":
-                    ok, how = check_visited_loop(b, head, blocks, r["set"])
+                    ok, how = check_visited_loop(b, head, blocks, None)
                 elif w == "counter-or-pop":
-                    ok, how = check_counter_or_pop_loop(b, head, blocks, r["var"], r["stack"])
+                    ok, how = check_counter_or_pop_loop(b, head, blocks, None, None)
                 elif w == "tabled":
                     ok, how = (r.get("sig") == sig), "signature differs from the reviewed loop"
                     if ok:
@@ -384,7 +436,7 @@ def check_termination(ctx, F, scope, loops_table, rec_table, rule="R-TERM"):
                 if ok:
                     r["_used"] = r.get("_used", 0) + 1
                     stats["verified" if w != "tabled" else "tabled"] += 1
-                    ctx.obligations.append({"rule": rule, "key": "loop|%s|%s" % (fn, w + ":" + (r.get("var") or r.get("set") or "sig")), "status": "discharged",
+                    ctx.obligations.append({"rule": rule, "key": "loop|%s|%s" % (fn, w), "status": "discharged",
                                             "how": how, "where": where, "nontrivial": True})
                     done = True
                     break
